@@ -4,5 +4,5 @@
 mod symcase;
 
 fn main() {
-    vharness::for_each_case(symcase::run);
+    vharness::for_each_case(symcase::run_with_async);
 }
